@@ -1,15 +1,26 @@
 (* C03 — property theorems only.  Each is closed by [exact] of a lemma from the
    Proofs*.v files; the driver pins the statements with [Check] and prints the
-   assumptions on every run. *)
+   assumptions on every run.
+
+   MODEL  = Model.v  (run = yash_arith::eval; tokens_of, parse, eval, ...)
+   SPEC   = Spec.v   (spec_run = spec_lex ; spec_parse ; spec_eval, oracle) *)
 From Yv Require Import Common.Base C03.Defs C03.Model C03.Spec.
 From Yv Require Import C03.ProofsArith C03.ProofsNum C03.ProofsLex C03.ProofsEval
-  C03.ProofsParse C03.ProofsParse2 C03.Proofs.
+  C03.ProofsParse C03.ProofsParse2 C03.Proofs C03.ProofsVar C03.ProofsGen C03.ProofsSeq.
+From Yv Require Import Gen.Gen_Arith.
+Import GenNames.
+(* non-vacuity examples for the implication-shaped theorems: Examples.v,
+   var_const_agree_nonvacuous (ProofsVar.v), sequenced_example (ProofsSeq.v) *)
+From Yv Require C03.Examples.
 
-(* The whole property: for every character classification, text and variable
-   environment, yash_arith::eval (the model [run]) returns exactly the value
-   and the variable assignments the specification gives (lexer by maximal munch,
-   C grammar, denotational semantics in Z), reports an error exactly when the
-   specification gives no value, and neither panics nor runs out of fuel. *)
+(* ---- the property as a whole ------------------------------------------------- *)
+
+(* For every character classification, text and variable environment:
+   yash_arith::eval returns exactly the value and the variable assignments the
+   specification gives (maximal-munch lexer, C grammar, denotational semantics
+   in Z with short-circuit operands), reports an error exactly when the
+   specification gives no value (not an expression / unrepresentable /
+   undefined), and neither panics nor runs out of fuel. *)
 Theorem arith_exact_or_error :
   forall cls s env,
     match run cls s env with
@@ -24,6 +35,203 @@ Theorem oracle_sound :
   forall cls s env, oracle cls s env (answer_of_outcome (run cls s env)) = 0%N.
 Proof. exact oracle_sound_lemma. Qed.
 
+(* no text, however malformed, makes the evaluator panic; the fuel computed from
+   the input is never exhausted *)
 Theorem eval_total :
   forall cls s env, run cls s env <> RPanic /\ run cls s env <> RFuel.
 Proof. exact no_panic_lemma. Qed.
+
+(* ---- tokenizer ------------------------------------------------------------------ *)
+
+(* first match in the order of OPERATORS = longest operator lexeme (maximal munch) *)
+Theorem operator_table_is_longest_match :
+  forall s,
+    match find_operator operators s with
+    | Some (lx, o, rest) =>
+        longest_operator s = Some o /\ lx = lexeme o /\ rest = skipn (length (lexeme o)) s
+    | None => longest_operator s = None
+    end.
+Proof. exact first_match_is_longest. Qed.
+
+(* Tokens::next_token iterated = the specified token sequence; constants are in range *)
+Theorem lex_equiv :
+  forall cls s,
+    match tokens_of cls s with
+    | (ts, FEnd _) => spec_lex cls s = Some (erase ts) /\ Forall tok_ok ts
+    | (ts, FErr _ _) => spec_lex cls s = None
+    | (_, FFuel) => False
+    end.
+Proof. exact ProofsLex.lex_equiv. Qed.
+
+(* ---- parser ------------------------------------------------------------------------ *)
+
+(* Operator::precedence and as_binary are the levels and associativity of the C
+   grammar: level j of the grammar (1 multiplicative ... 10 logical OR,
+   11 conditional, 12 assignment) has precedence 13 - j; levels 1..10 associate
+   to the left, assignment to the right; the other tokens are no infix operators *)
+Theorem precedence_is_C :
+  forall o,
+    match op_level o with
+    | Some j => precedence o = N.of_nat (13 - j) /\ (1 <= j <= 12)%nat
+    | None => precedence o = 0%N \/ precedence o = 13%N
+    end /\
+    as_binary o =
+    match op_level o with
+    | Some j =>
+        if Nat.leb j 10 then option_map (fun b => (b, Left)) (op_assoc o (binary_level j))
+        else if Nat.eqb j 12 then option_map (fun b => (b, Right)) (op_assoc o assignment_operators)
+        else None
+    | None => None
+    end /\
+    as_prefix o = prefix_operator o /\ as_postfix o = postfix_operator o.
+Proof.
+  exact (fun o => conj (precedence_level o) (conj (as_binary_level o) (prefix_tables o))).
+Qed.
+
+(* ast::parse = recursive descent through the C grammar: it accepts exactly the
+   token sequences the grammar derives, and its reverse-Polish vector represents
+   the derived tree (so C precedence and associativity) *)
+Theorem parse_equiv :
+  forall st, fin_ok st ->
+    match parse st with
+    | POk ns _ => exists e loc, snd st = FEnd loc /\ spec_parse (ets st) = Some e /\ Repr e ns
+    | PErr _ _ => (exists e loc, snd st = FErr e loc) \/ spec_parse (ets st) = None
+    | PFuel => False
+    end.
+Proof. exact parse_equiv_lemma. Qed.
+
+(* ---- evaluator ------------------------------------------------------------------------ *)
+
+(* the bit trick of `<<`: checked_shl + `result >= 0 && result >> rhs == lhs`
+   accepts exactly when lhs * 2^rhs is representable, and then yields it *)
+Theorem shl_filter_exact :
+  forall l r, (0 <= l)%Z -> I64 l -> (0 <= r < 64)%Z ->
+    let result := wrap64 (Z.shiftl l r) in
+    (((0 <=? result)%Z && (Z.shiftr result r =? l)%Z = true <-> I64 (l * 2 ^ r)) /\
+     (I64 (l * 2 ^ r) -> result = (l * 2 ^ r)%Z)).
+Proof. exact shl_filter_exact_lemma. Qed.
+
+(* every binary operation: a value is the mathematically exact result, an error
+   is reported exactly when the result is unrepresentable or undefined *)
+Theorem binary_result_exact_or_error :
+  forall o a b, I64 a -> I64 b ->
+    match arith_result o a b with
+    | inl z => arith o a b = Some z
+    | inr _ => arith o a b = None
+    end.
+Proof. exact arith_result_exact. Qed.
+
+Theorem arith_in_range :
+  forall o a b z, I64 a -> I64 b -> arith o a b = Some z -> I64 z.
+Proof. exact arith_I64. Qed.
+
+(* the evaluator on the reverse-Polish vector (split_last / split_at slicing,
+   lazy || && ?:) computes the denotation of the tree the vector represents;
+   unevaluated operands cause neither an assignment nor an error *)
+Theorem eval_flatten :
+  forall e ns, Repr e ns -> expr_ok e ->
+    forall f env, (length ns <= f)%nat -> agrees (den e env) (eval f ns env).
+Proof. exact eval_repr. Qed.
+
+(* in the specification an operand that C does not evaluate has no influence *)
+Theorem spec_short_circuit :
+  forall a b c env t e1,
+    den a env = Some (t, e1) ->
+    (rvalue t e1 = Some 0%Z -> den (EBin BLogAnd a b) env = Some (SNumT 0, e1) /\
+                               den (ECond a b c) env = den c e1) /\
+    (forall n, rvalue t e1 = Some n -> n <> 0%Z ->
+               den (EBin BLogOr a b) env = Some (SNumT 1, e1) /\
+               den (ECond a b c) env = den b e1).
+Proof. exact spec_short_circuit_lemma. Qed.
+
+(* The specification reads a variable operand when its operator is applied.  On
+   every expression without an unsequenced read/write conflict (the expressions
+   to which ISO C gives a meaning: not `x + x++`, `x += x++`) this is
+   unobservable: the specification agrees with the semantics that converts each
+   operand to its value as soon as it has been evaluated. *)
+Theorem spec_late_read_unobservable :
+  forall x, sequenced x -> forall e, den_eager x e = den x e.
+Proof. exact late_read_unobservable. Qed.
+
+(* ---- variables -------------------------------------------------------------------------- *)
+
+(* expand_variable reads a value exactly as the specification says: an
+   optionally signed C integer constant that is representable *)
+Theorem variable_value_exact : forall v, parse_integer v = variable_value v.
+Proof. exact parse_integer_spec. Qed.
+
+(* `$((x))` and `$(($x))` agree when the value of x is an integer constant *)
+Theorem var_const_agree :
+  forall cls x w z env,
+    Forall (fun c => is_word cls c = true) x ->
+    (exists c r, x = c :: r /\ ascii_digit c = false) ->
+    Forall (fun c => is_word cls c = true) w ->
+    constant_value w = Some z ->
+    lookup x env = Some w ->
+    run cls x env = RVal z env /\ run cls w env = RVal z env.
+Proof. exact var_const_agree_lemma. Qed.
+
+(* with one sign in front of the constant the variable denotes the signed number *)
+Theorem var_signed_const_agree :
+  forall w z, plain w -> parse_constant w = Some z ->
+    parse_integer (45%N :: w) = Some (- z)%Z /\ parse_integer (43%N :: w) = Some z.
+Proof. exact var_signed_const. Qed.
+
+(* what an assignment stores reads back as the assigned value *)
+Theorem assign_then_read :
+  forall z, I64 z -> parse_integer (dec_of_Z z) = Some z.
+Proof. exact assign_read_lemma. Qed.
+
+(* ---- the tables as the source states them now (coq/Gen/Gen_Arith.v is regenerated
+        from token.rs and ast.rs on every run) ------------------------------------------- *)
+
+Theorem gen_tables_match_model : gen_tables_are_model.
+Proof. exact gen_tables_are_model_holds. Qed.
+
+(* the OPERATORS table of the source, scanned in its order, is maximal munch *)
+Theorem gen_operator_table_is_longest_match :
+  map (fun p => (L (fst p), snd p)) gen_operators
+    = map (fun p => (fst p, oper_name (snd p))) operators /\
+  forall s,
+    match find_operator operators s with
+    | Some (lx, o, rest) =>
+        longest_operator s = Some o /\ lx = lexeme o /\ rest = skipn (length (lexeme o)) s
+    | None => longest_operator s = None
+    end.
+Proof.
+  exact (conj (proj1 (proj2 gen_tables_are_model_holds)) first_match_is_longest).
+Qed.
+
+(* the precedence table of the source is the table of the C grammar levels *)
+Theorem gen_precedence_is_C :
+  gen_precedence = map (fun o => (oper_name o, precedence o)) all_opers /\
+  forall o,
+    match op_level o with
+    | Some j => precedence o = N.of_nat (13 - j) /\ (1 <= j <= 12)%nat
+    | None => precedence o = 0%N \/ precedence o = 13%N
+    end.
+Proof.
+  exact (conj (proj1 (proj2 (proj2 gen_tables_are_model_holds))) precedence_level).
+Qed.
+
+(* ---- assumptions (each must be: Closed under the global context) ------------------------ *)
+Print Assumptions arith_exact_or_error.
+Print Assumptions oracle_sound.
+Print Assumptions eval_total.
+Print Assumptions operator_table_is_longest_match.
+Print Assumptions lex_equiv.
+Print Assumptions precedence_is_C.
+Print Assumptions parse_equiv.
+Print Assumptions shl_filter_exact.
+Print Assumptions binary_result_exact_or_error.
+Print Assumptions arith_in_range.
+Print Assumptions eval_flatten.
+Print Assumptions spec_short_circuit.
+Print Assumptions spec_late_read_unobservable.
+Print Assumptions variable_value_exact.
+Print Assumptions var_const_agree.
+Print Assumptions var_signed_const_agree.
+Print Assumptions assign_then_read.
+Print Assumptions gen_tables_match_model.
+Print Assumptions gen_operator_table_is_longest_match.
+Print Assumptions gen_precedence_is_C.
